@@ -90,8 +90,9 @@ NameBytes == [i \in 1..Len(NameOrder) |->
     [] NameOrder[i] = "x" -> <<120>> [] NameOrder[i] = "y" -> <<121>>]
 Undef == "zz"                                   \* the name faults are redirected to; never defined
 UndefQ == "q0"                                  \* rendered as the QUOTED numeral "0" (%"0", @"0"): a name, never an ID, never defined
+UndefN == "n0"                                  \* rendered as the BARE numeral %0: an ID that no value of an all-named function has
 IdNames == <<"@0", "@1", "@2", "@3">>           \* identifiers given to unnamed globals, by textual position
-Names == {NameOrder[i] : i \in 1..Len(NameOrder)} \cup {IdNames[i] : i \in 1..Len(IdNames)} \cup {Undef, UndefQ}
+Names == {NameOrder[i] : i \in 1..Len(NameOrder)} \cup {IdNames[i] : i \in 1..Len(IdNames)} \cup {Undef, UndefQ, UndefN}
 Rank(n) == CHOOSE i \in 1..Len(NameOrder) : NameOrder[i] = n
 
 ----------------------------------------------------------------------------
@@ -197,6 +198,11 @@ Patterns == <<
   << Attr("7"), Md("2", <<>>), Global("", <<Ref("m.attach", "2")>>), Def("", <<Ref("a.func", "7")>>, << Loc("entry", "block", <<>>) >>),
      Md("10", <<Ref("g.mdvalue", "@1")>>), Global("g", <<Ref("g.init", "@1")>>), Global("", <<Ref("g.init", "@0")>>), Attr("1"),
      Global("", <<Ref("g.init", "@2")>>), NamedMd("m", <<Ref("m.named", "10")>>) >>,
+  \* 28: the entities of 26 with every attribute-group and metadata definition last (the compiler's order): the
+  \*     two are permutations of each other beyond what Perms generates (unnamed entities keep their places)
+  << Global("", <<Ref("m.attach", "2")>>), Def("", <<Ref("a.func", "7")>>, << Loc("entry", "block", <<>>) >>),
+     Global("g", <<Ref("g.init", "@1")>>), Global("", <<Ref("g.init", "@0")>>), Global("", <<Ref("g.init", "@2")>>),
+     Attr("7"), Attr("1"), NamedMd("m", <<Ref("m.named", "10")>>), Md("2", <<>>), Md("10", <<Ref("g.mdvalue", "@1")>>) >>,
   \* 27: blockaddress constants inside metadata nodes, next to ones in a global and in a function (all join the same fix-up list)
   << Md("1", <<RefX("l.baddr", "f", "bb")>>), Global("g", <<RefX("l.baddr", "f", "bb")>>), Md("0", <<RefX("l.baddr", "h", "bb"), Ref("m.tuple", "1")>>),
      Def("f", <<>>, << Loc("entry", "block", <<Ref("l.target", "bb")>>), Loc("bb", "block", <<>>), Loc("x", "inst", <<RefX("l.baddr", "h", "bb")>>) >>),
